@@ -33,6 +33,40 @@ type Case struct {
 	// ExportAfter > 0: the song is exported once after that many bars have been added, then the
 	// remaining bars are added and the same song is exported again (export - edit - export)
 	ExportAfter int `json:",omitempty"`
+	// edits made right after that intermediate export, before the remaining bars are added:
+	NewRes uint16   `json:",omitempty"` // a new resolution (Song.Ticks), 0 = unchanged
+	Resig  [][3]int `json:",omitempty"` // [bar index, numerator, denominator]: Bars()[i].TimeSig replaced
+}
+
+// effectiveSigs simulates AddBar (a bar without signature takes over the signature the last
+// bar has at that moment) and the edits, and returns the final signature of every bar.
+func effectiveSigs(c Case) [][2]int {
+	var eff [][2]int
+	for i, b := range c.Bars {
+		if c.ExportAfter > 0 && i == c.ExportAfter {
+			for _, r := range c.Resig {
+				if r[0] >= 0 && r[0] < len(eff) {
+					eff[r[0]] = [2]int{r[1], r[2]}
+				}
+			}
+		}
+		sig := [2]int{b.Num, b.Den}
+		if b.Num == 0 && b.Den == 0 {
+			sig = [2]int{4, 4}
+			if len(eff) > 0 {
+				sig = eff[len(eff)-1]
+			}
+		}
+		eff = append(eff, sig)
+	}
+	if c.ExportAfter > 0 && c.ExportAfter >= len(c.Bars) {
+		for _, r := range c.Resig {
+			if r[0] >= 0 && r[0] < len(eff) {
+				eff[r[0]] = [2]int{r[1], r[2]}
+			}
+		}
+	}
+	return eff
 }
 
 type item struct {
@@ -69,10 +103,26 @@ func buildSong(c Case) *sequencer.Song {
 	s := sequencer.New()
 	s.Ticks = smf.MetricTicks(c.Res)
 	s.Title, s.Composer = "t", "c"
+	exportAndEdit := func() {
+		_ = s.ToSMF0()
+		_ = s.ToSMF1()
+		if c.NewRes != 0 {
+			s.Ticks = smf.MetricTicks(c.NewRes)
+		}
+		for _, r := range c.Resig {
+			if r[0] >= 0 && r[0] < len(s.Bars()) {
+				s.Bars()[r[0]].TimeSig = [2]uint8{uint8(r[1]), uint8(r[2])}
+			}
+		}
+	}
+	defer func() {
+		if c.ExportAfter > 0 && c.ExportAfter >= len(c.Bars) {
+			exportAndEdit()
+		}
+	}()
 	for i, b := range c.Bars {
 		if c.ExportAfter > 0 && i == c.ExportAfter {
-			_ = s.ToSMF0()
-			_ = s.ToSMF1()
+			exportAndEdit()
 		}
 		bar := sequencer.Bar{TimeSig: [2]uint8{uint8(b.Num), uint8(b.Den)}}
 		for _, e := range b.Events {
@@ -125,7 +175,16 @@ func run(c Case) (res ev.Result) {
 		return
 	}
 	// ---- the independent model
-	t32 := int64(c.Res) / 8
+	finalRes := c.Res
+	if c.ExportAfter > 0 && c.NewRes != 0 {
+		finalRes = c.NewRes
+	}
+	if finalRes%8 != 0 {
+		res.Skip = true
+		return
+	}
+	t32 := int64(finalRes) / 8
+	eff := effectiveSigs(c)
 	num, den := 4, 4
 	var start int64
 	var want []item // everything
@@ -136,11 +195,12 @@ func run(c Case) (res ev.Result) {
 		end int64
 	}
 	var ends []int64
-	for _, b := range c.Bars {
-		if b.Num != 0 || b.Den != 0 {
-			num, den = b.Num, b.Den
+	for bi, b := range c.Bars {
+		num, den = eff[bi][0], eff[bi][1]
+		len32 := 0
+		if den != 0 {
+			len32 = num * 32 / den
 		}
-		len32 := num * 32 / den
 		if den == 0 || num == 0 || num*32%den != 0 || len32 > 255 || len32 == 0 {
 			res.Skip = true // outside the stated domain
 			return
@@ -206,8 +266,8 @@ func run(c Case) (res ev.Result) {
 		res.Violation = "export: " + p
 		return
 	}
-	if d, ok := f0.TimeFormat.(smf.MetricTicks); !ok || uint16(d) != c.Res {
-		res.Violation = fmt.Sprintf("ToSMF0 time format %v, song resolution %d", f0.TimeFormat, c.Res)
+	if d, ok := f0.TimeFormat.(smf.MetricTicks); !ok || uint16(d) != finalRes {
+		res.Violation = fmt.Sprintf("ToSMF0 time format %v, song resolution %d", f0.TimeFormat, finalRes)
 		return
 	}
 	t0, e0, bad := collect(f0)
@@ -296,6 +356,24 @@ func genCase(t *rapid.T) Case {
 		lens = append(lens, num*32/den)
 		c.Bars = append(c.Bars, b)
 	}
+	// optionally an intermediate export followed by edits (new resolution, replaced signatures of
+	// bars that exist already); events are then placed using the FINAL bar lengths
+	if rapid.IntRange(0, 3).Draw(t, "exportInBetween?") == 0 {
+		c.ExportAfter = rapid.IntRange(1, nb).Draw(t, "exportAfter") // == nb: all bars are there, export, edit, export
+		if rapid.Bool().Draw(t, "newResolution?") {
+			c.NewRes = uint16(8 * rapid.OneOf(rapid.SampledFrom([]int{3, 12, 60, 120, 1920}), rapid.IntRange(3, 1920)).Draw(t, "newRes/8"))
+		}
+		if rapid.Bool().Draw(t, "resign?") {
+			k := rapid.IntRange(1, 2).Draw(t, "nResig")
+			for i := 0; i < k; i++ {
+				s := rapid.SampledFrom(favourites).Draw(t, "newSig")
+				c.Resig = append(c.Resig, [3]int{rapid.IntRange(0, c.ExportAfter-1).Draw(t, "resigBar"), s.n, s.d})
+			}
+		}
+		for i, e := range effectiveSigs(c) {
+			lens[i] = e[0] * 32 / e[1]
+		}
+	}
 	total := 0
 	for _, l := range lens {
 		total += l
@@ -323,14 +401,11 @@ func genCase(t *rapid.T) Case {
 		}
 		done += lens[i]
 	}
-	if nb >= 2 && rapid.IntRange(0, 3).Draw(t, "exportInBetween?") == 0 {
-		c.ExportAfter = rapid.IntRange(1, nb-1).Draw(t, "exportAfter")
-	}
 	return c
 }
 
 var songs = ev.NewCheck("C20", "songs",
-	"rapid: songs of 1..12 bars; time signatures numerator 1..24 over denominators 1,2,4,8,16,32 with bars of at most 255 thirty-seconds (biased to 6/8, 9/8, 12/8, 7/4, 15/16), bars inheriting the previous signature; resolutions divisible by 8 (24..15360); up to 8 tracks; per bar 0..5 events (NoteOn velocity > 0 with a duration ending within the song, control/program change, sysex) at any in-bar position; in one case of four the song is exported once in the middle of being built and again at the end (export - edit - export); oracle = independent bar/grid model: bar start = sum of previous num*32/den * res/8, event at start+pos*t32, NoteOff at start+(pos+dur)*t32, time-signature event at every change relative to 4/4, every track ends at the song end, no wrapped delta; ToSMF0 and the union of ToSMF1 must equal the model (hence each other) as multisets of (tick, bytes), ToSMF1 assigns events to tracks by TrackNo; non-trivial = >= 2 bars, a bar with numerator >= 8 and an event in or after it in a later bar; distinct by case hash",
+	"rapid: songs of 1..12 bars; time signatures numerator 1..24 over denominators 1,2,4,8,16,32 with bars of at most 255 thirty-seconds (biased to 6/8, 9/8, 12/8, 7/4, 15/16), bars inheriting the previous signature; resolutions divisible by 8 (24..15360); up to 8 tracks; per bar 0..5 events (NoteOn velocity > 0 with a duration ending within the song, control/program change, sysex) at any in-bar position; in one case of four the song is exported once in the middle of being built, then possibly edited (new resolution, time signatures of existing bars replaced through Bars()), the remaining bars are added and it is exported again (export - edit - export); oracle = independent bar/grid model: bar start = sum of previous num*32/den * res/8, event at start+pos*t32, NoteOff at start+(pos+dur)*t32, time-signature event at every change relative to 4/4, every track ends at the song end, no wrapped delta; ToSMF0 and the union of ToSMF1 must equal the model (hence each other) as multisets of (tick, bytes), ToSMF1 assigns events to tracks by TrackNo; non-trivial = >= 2 bars, a bar with numerator >= 8 and an event in or after it in a later bar; distinct by case hash",
 	genCase, run)
 
 func TestPropSongs(t *testing.T) { songs.Rapid(t, 3000, 60000) }
